@@ -209,13 +209,13 @@ builtin.module {
 // CHECK-NEXT:    %9 = riscv.xor %5, %2 : (!riscv.reg<s6>, !riscv.reg<s3>) -> !riscv.reg<s6>
 // CHECK-NEXT:    %10 = riscv.xor %9, %2 : (!riscv.reg<s6>, !riscv.reg<s3>) -> !riscv.reg<s3>
 // CHECK-NEXT:    %11 = riscv.xor %9, %10 : (!riscv.reg<s6>, !riscv.reg<s3>) -> !riscv.reg<s6>
-// CHECK-NEXT:    %12 = riscv.xor %4, %10 : (!riscv.reg<s5>, !riscv.reg<s3>) -> !riscv.reg<s5>
-// CHECK-NEXT:    %13 = riscv.xor %12, %10 : (!riscv.reg<s5>, !riscv.reg<s3>) -> !riscv.reg<s3>
-// CHECK-NEXT:    %14 = riscv.xor %12, %13 : (!riscv.reg<s5>, !riscv.reg<s3>) -> !riscv.reg<s5>
-// CHECK-NEXT:    %15 = riscv.xor %3, %13 : (!riscv.reg<s4>, !riscv.reg<s3>) -> !riscv.reg<s4>
-// CHECK-NEXT:    %16 = riscv.xor %15, %13 : (!riscv.reg<s4>, !riscv.reg<s3>) -> !riscv.reg<s3>
-// CHECK-NEXT:    %17 = riscv.xor %15, %16 : (!riscv.reg<s4>, !riscv.reg<s3>) -> !riscv.reg<s4>
-// CHECK-NEXT:    "test.op"(%8, %7, %17, %14, %11, %16) : (!riscv.reg<s2>, !riscv.reg<s1>, !riscv.reg<s4>, !riscv.reg<s5>, !riscv.reg<s6>, !riscv.reg<s3>) -> ()
+// CHECK-NEXT:    %12 = riscv.xor %4, %11 : (!riscv.reg<s5>, !riscv.reg<s6>) -> !riscv.reg<s5>
+// CHECK-NEXT:    %13 = riscv.xor %12, %11 : (!riscv.reg<s5>, !riscv.reg<s6>) -> !riscv.reg<s6>
+// CHECK-NEXT:    %14 = riscv.xor %12, %13 : (!riscv.reg<s5>, !riscv.reg<s6>) -> !riscv.reg<s5>
+// CHECK-NEXT:    %15 = riscv.xor %3, %14 : (!riscv.reg<s4>, !riscv.reg<s5>) -> !riscv.reg<s4>
+// CHECK-NEXT:    %16 = riscv.xor %15, %14 : (!riscv.reg<s4>, !riscv.reg<s5>) -> !riscv.reg<s5>
+// CHECK-NEXT:    %17 = riscv.xor %15, %16 : (!riscv.reg<s4>, !riscv.reg<s5>) -> !riscv.reg<s4>
+// CHECK-NEXT:    "test.op"(%8, %7, %17, %16, %13, %10) : (!riscv.reg<s2>, !riscv.reg<s1>, !riscv.reg<s4>, !riscv.reg<s5>, !riscv.reg<s6>, !riscv.reg<s3>) -> ()
 // CHECK-NEXT:  }
 
 // -----
